@@ -7,15 +7,16 @@
    FULL statement of the property over the model (what one would like to prove):
      forall d d', wf_doc d -> remove_signatures d = Some d' -> no_sig_left d d' /\ non_sig_unchanged d d'.
    The transcribed code REFUTES it (four *_refuted witnesses below, all reproduced on the real
-   implementation by the harness).  What is proved instead:
+   implementation by the harness; a fifth, /Perms surviving because the code deleted the key
+   "Perm", was fixed in pdfcpu 31c53709 and its witness removed).  What is proved instead:
      - C29_no_sig_left_partial / C29_non_sig_unchanged_partial: the full conclusion on the decidable
-       class `supported` (no /Perms; every top-level field has its own /FT; no signature field nested
+       class `supported` (every top-level field has its own /FT; no signature field nested
        below a non-signature top-level field and no non-signature field below a signature one; no
        signature widget outside the field forest; every page reference to a signature dictionary is
        one of the two probes removeSigAnnot makes);
      - C29_nothing_else_removed: for EVERY document, pages keep their order, a page loses only
        references to a top-level field without own non-Sig /FT or to its only kid, kept top-level
-       fields are unchanged subtrees, SigFlags/DSS/Legal/Extensions are cleared, /Perms is NOT touched;
+       fields are unchanged subtrees, /Perms (DocMDP, UR3), SigFlags, DSS, Legal and Extensions are cleared;
      - C29_no_sigs_error_writes_nothing: for EVERY document, "no signature dictionary anywhere
        (effective type, any depth)" is equivalent to the ErrNoSignatures outcome with no output. *)
 From Coq Require Import NArith List Bool.
@@ -60,15 +61,8 @@ Definition mkdoc (fields : list field) (sf perms : bool) (pages : list page)
 (* a merged field/widget on page 3 *)
 Definition W (i : N) (t : option ftype) (p : option N) : field := Field i t true true p [].
 
-(* (1) certification: catalog /Perms << /DocMDP sigdict >> survives — the code deletes "Perm" *)
+(* certification: catalog /Perms << /DocMDP sigdict >> is cleared (refuted before fix 31c53709) *)
 Definition w_perms := mkdoc [W 6 (Some Tx) (Some 3); W 7 (Some Sig) (Some 3)] true true [(3, Some [6; 7])] [].
-Theorem C29_perms_survive_refuted : exists d d',
-  wf_doc d /\ remove_signatures d = Some d' /\ d_perms d' = true /\ ~ no_sig_left d d'.
-Proof.
-  exists w_perms, (remove_all w_perms). repeat split.
-  intros [_ [_ [_ [Hp _]]]]. vm_compute in Hp. discriminate.
-Qed.
-Print Assumptions C29_perms_survive_refuted.
 
 (* (2) a signature field nested below a /FT /Tx parent survives, with its widget on the page *)
 Definition w_nested :=
@@ -136,11 +130,12 @@ Example C29_nonvacuous :
      map f_id (visible_fields d') = [10; 17] /\
      d_pages d' = [(3, Some [12; 9]); (4, Some [13; 9]); (5, None)]) /\
   sig_ids ex_ok = [14; 15; 16] /\
-  supported w_perms = false /\ supported w_nested = false /\ supported w_ftless = false /\
+  supported w_perms = true /\ d_perms w_perms = true /\
+  (exists d', remove_signatures w_perms = Some d' /\ d_perms d' = false) /\ supported w_nested = false /\ supported w_ftless = false /\
   supported w_nop = false /\
   remove_signatures (mkdoc [W 6 (Some Tx) (Some 3)] false false [(3, Some [6])] []) = None.
 Proof.
   split; [reflexivity|]. split; [reflexivity|]. split.
   - eexists. split; [reflexivity|]. split; reflexivity.
-  - repeat split.
+  - repeat split. eexists. split; reflexivity.
 Qed.
